@@ -118,6 +118,9 @@ struct LcSim : Harness {
   // native twins of synthetic definitions {"salt":77000+k,"na":1,"body":[["ret","a0"]]} used by load_external / resolver
   template <int K> static int64_t extdef(int64_t a0) { return (int64_t) ((uint64_t) a0 * prog::RETMUL + (uint64_t) (77000 + K)); }
   static void *extdef_addr(int k) { static void *t[] = {(void *) extdef<0>, (void *) extdef<1>, (void *) extdef<2>, (void *) extdef<3>, (void *) extdef<4>, (void *) extdef<5>, (void *) extdef<6>, (void *) extdef<7>}; return t[k & 7]; }
+  static int64_t *extdata_addr(int k) { static int64_t v[8] = {88000, 88001, 88002, 88003, 88004, 88005, 88006, 88007}; return &v[k & 7]; }
+  std::vector<Json> extdata_json;
+  const Json *extdata_def(int k) { if (extdata_json.empty()) for (int i = 0; i < 8; i++) { Json d = Json::object(); d.set("name", prog::S("xd%d", i)); d.set("data", 1); d.set("val", 88000 + i); extdata_json.push_back(d); } return &extdata_json[k & 7]; }
   std::vector<Json> extdef_json;  // synthetic DSL twins
   const Json *extdef_def(int k) {
     if (extdef_json.empty()) for (int i = 0; i < 8; i++) { Json f = Json::object(); f.set("name", prog::S("x%d", i)); f.set("salt", 77000 + i); f.set("na", 1); f.set("nd", 0); f.set("fuel", 0); Json b = Json::array(), r = Json::array(); r.push("ret"); r.push("a0"); b.push(r); f.set("body", b); extdef_json.push_back(f); }
@@ -130,7 +133,7 @@ struct LcSim : Harness {
     if (!strcmp(name, "ext")) return (void *) ext_c;
     if (!strcmp(name, "extn")) return (void *) extn_c;
     auto it = s->resolver_k.find(name); if (it == s->resolver_k.end()) return nullptr;
-    return extdef_addr(it->second);
+    return name[0] == 'd' ? (void *) extdata_addr(it->second) : extdef_addr(it->second);
   }
 
   // ------------------------------------------------------------------------------------------ run state
@@ -176,7 +179,12 @@ struct LcSim : Harness {
     model.module_of = [this](const Json *d) -> std::string { for (auto &kv : fns) for (auto &f : kv.second) if (f.def == d) return std::to_string(f.mod); return "-1"; };
     model.resolve = [this](const std::string &mod, const std::string &callee) -> const Json * {
       int mi = atoi(mod.c_str()); bool indirect = callee.size() > 2 && callee.compare(callee.size() - 2, 2, "#i") == 0;
-      std::string name = indirect ? callee.substr(0, callee.size() - 2) : callee;
+      bool is_data = callee.size() > 2 && callee.compare(callee.size() - 2, 2, "#d") == 0;
+      std::string name = indirect || is_data ? callee.substr(0, callee.size() - 2) : callee;
+      if (mi >= 0 && is_data) {
+        if (const Json *dj = prog_json->at("mods")[(size_t) mi].find("data")) for (auto &d : dj->a) if (d.gets("name") == name) return &d;
+        auto it = bound.find({mi, name}); return it != bound.end() ? it->second.def : nullptr;
+      }
       if (mi >= 0) {
         Fn *own = find_fn(name, mi); if (own) return own->def;
         if (use_impl_bindings && !indirect) { auto ii = bound_inlined.find({mi, name}); if (ii != bound_inlined.end()) return ii->second.def; }
@@ -330,9 +338,10 @@ struct LcSim : Harness {
       if (expect_error != -1) { if (expect_error >= 0) out.fail("link_missing_error", std::to_string(expect_error), "MIR_load_module succeeded but the model expects error: " + expect_error_why); expect_error = -1; }
     } else if (o == "ldext") {
       std::string name = op.size() > 1 && op[1].k == Json::Str ? op[1].s : "f"; int k = (int) argi(2) & 7;
-      phase("MIR_load_external", name); MIR_load_external(ctx, name.c_str(), extdef_addr(k));
+      bool isd = name[0] == 'd';
+      phase("MIR_load_external", name); MIR_load_external(ctx, name.c_str(), isd ? (void *) extdata_addr(k) : extdef_addr(k));
       { auto it = G.find(name); if (it != G.end()) C->count(it->second.external ? "c13_external_over_external" : "c13_external_over_export"); }
-      Def d; d.def = extdef_def(k); d.external = true; d.k = k; G[name] = d; C->count("load_external");
+      Def d; d.def = isd ? extdata_def(k) : extdef_def(k); d.external = true; d.k = k; G[name] = d; C->count("load_external");
     } else if (o == "redef") { redef_allowed = argi(1) != 0; MIR_set_func_redef_permission(ctx, redef_allowed ? 1 : 0); }
     else if (o == "geninit") { if (gen_on) return; phase("MIR_gen_init"); MIR_gen_init(ctx); gen_on = true; MIR_gen_set_optimize_level(ctx, (unsigned) opt_level); }
     else if (o == "genfinish") { if (!gen_on || lazy_pending()) return; phase("MIR_gen_finish"); MIR_gen_finish(ctx); gen_on = false; }
@@ -352,6 +361,10 @@ struct LcSim : Harness {
   // ---- binding model
   void model_load(size_t mi) {
     expect_error = -1;
+    if (const Json *dj = prog_json->at("mods")[mi].find("data")) for (auto &d : dj->a) if (d.geti("exp", 1)) {  // data redefinition is never an error
+      auto it = G.find(d.gets("name")); if (it != G.end()) C->count("c13_data_redefined");
+      Def dd; dd.def = &d; dd.mod = (int) mi; G[d.gets("name")] = dd;
+    }
     for (auto &f : prog_json->at("mods")[mi].at("funcs").a) {
       if (!f.geti("exp", 1)) continue; std::string n = f.gets("name");
       auto it = G.find(n);
@@ -364,7 +377,8 @@ struct LcSim : Harness {
   std::set<std::string> imports_of(size_t mi) {
     std::set<std::string> def, imp; const Json &m = prog_json->at("mods")[mi];
     for (auto &f : m.at("funcs").a) def.insert(f.gets("name"));
-    for (auto &f : m.at("funcs").a) prog::walk(f.at("body"), [&](const Json &st) { if ((st[0].s == "call" || st[0].s == "icall") && !def.count(st[2].s)) imp.insert(st[2].s); });
+    if (const Json *dj = m.find("data")) for (auto &d : dj->a) def.insert(d.gets("name"));
+    for (auto &f : m.at("funcs").a) prog::walk(f.at("body"), [&](const Json &st) { if ((st[0].s == "call" || st[0].s == "icall" || st[0].s == "ldata") && !def.count(st[2].s)) imp.insert(st[2].s); });
     return imp;
   }
   void do_link(const Json &op, Outcome &out) {
@@ -387,7 +401,7 @@ struct LcSim : Harness {
         bound[{mi, n}] = it->second; newly.push_back({mi, n}); continue;
       }
       auto rk = resolver_k.find(n);
-      if (use_resolver && rk != resolver_k.end()) { Def d; d.def = extdef_def(rk->second); d.external = true; d.k = rk->second; G[n] = d; bound[{mi, n}] = d; continue; }
+      if (use_resolver && rk != resolver_k.end()) { Def d; d.def = n[0] == 'd' ? extdata_def(rk->second) : extdef_def(rk->second); d.external = true; d.k = rk->second; G[n] = d; bound[{mi, n}] = d; continue; }
       if (expect_error < 0) { expect_error = MIR_undeclared_op_ref_error; expect_error_why = "import of undefined " + n + " in module " + std::to_string(mi); }
     }
     if (use_resolver && !ext_loaded) { /* ext resolved by the resolver on demand */ }
@@ -531,12 +545,15 @@ struct LcSim : Harness {
     kn.set("placement", (int) (r.chance(1, 2) ? P_PACKED_FAR : r.below(4)));
     static const char *pool[] = {"f", "g", "h"};
     int nver = (int) r.range(2, 7); int salt = 100;
-    std::vector<std::set<std::string>> defs(nver), imps(nver);
+    std::vector<std::set<std::string>> defs(nver), imps(nver), ddefs(nver);
     auto push = [&](std::initializer_list<Json> l) { Json o = Json::array(); for (auto &x : l) o.push(x); ops.push(o); };
     for (int i = 0; i < nver; i++) {
       Json mo = Json::object(), funcs = Json::array(); mo.set("name", prog::S("m%d", i)); mo.set("fwd_first", (int) r.coin());
       for (auto nm : pool) if (r.chance(2, 5)) defs[i].insert(nm);
       for (auto nm : pool) if (!defs[i].count(nm) && r.chance(3, 5)) imps[i].insert(nm);
+      static const char *dpool[] = {"d1", "d2"}; Json dataj = Json::array(); std::set<std::string> ddef;
+      for (auto dn : dpool) if (r.chance(1, 4)) { Json d = Json::object(); d.set("name", dn); d.set("val", salt += 7); d.set("exp", 1); dataj.push(d); ddef.insert(dn); ddefs[i].insert(dn); }
+      if (dataj.size()) mo.set("data", dataj);
       for (auto &nm : defs[i]) {
         Json f = Json::object(), b = Json::array(); f.set("name", nm); f.set("salt", salt += 7); f.set("na", 1); f.set("nd", 0); f.set("fuel", 0); f.set("exp", 1);
         Json s1 = Json::array(); s1.push("op"); s1.push(r.coin() ? "add" : "xor"); s1.push("v0"); s1.push("a0"); s1.push((int) r.range(1, 99)); b.push(s1);
@@ -549,12 +566,17 @@ struct LcSim : Harness {
         Json x = Json::array(); x.push("op"); x.push("xor"); x.push("v0"); x.push("v0"); x.push(prog::S("v%d", k)); b.push(x);
         Json y = Json::array(); y.push("op"); y.push("mul"); y.push("v0"); y.push("v0"); y.push(31); b.push(y); k++;
       }
+      for (auto dn : dpool) if (ddef.count(dn) || r.chance(1, 4)) {
+        if (!ddef.count(dn)) imps[i].insert(dn);
+        Json c = Json::array(); c.push("ldata"); c.push("v4"); c.push(dn); b.push(c);
+        Json x = Json::array(); x.push("op"); x.push("add"); x.push("v0"); x.push("v0"); x.push("v4"); b.push(x);
+      }
       Json rt = Json::array(); rt.push("ret"); rt.push("v0"); b.push(rt); e.set("body", b); funcs.push(e);
       mo.set("funcs", funcs); mods_j.push(mo);
     }
     prog.set("mods", mods_j);
     // resolver knows a per-run subset of the pool
-    Json rs = Json::object(); for (auto nm : pool) if (r.chance(1, 3)) rs.set(nm, (int) r.below(8)); if (rs.size()) kn.set("resolver", rs);
+    Json rs = Json::object(); for (auto nm : pool) if (r.chance(1, 3)) rs.set(nm, (int) r.below(8)); for (auto nm : {"d1", "d2"}) if (r.chance(1, 3)) rs.set(nm, (int) r.below(8)); if (rs.size()) kn.set("resolver", rs);
     // history: a loose model (which names are known) biases towards long error-free histories, but errors are legal histories too
     std::set<std::string> known, known_fn; bool permit = false; std::vector<int> order; for (int i = 0; i < nver; i++) order.push_back(i);
     for (int i = nver; i > 1; i--) std::swap(order[i - 1], order[r.below(i)]);
@@ -565,8 +587,8 @@ struct LcSim : Harness {
       if (c < 30 && next < order.size()) {
         int mi = order[next]; bool clash = false; for (auto &d : defs[mi]) if (known.count(d)) clash = true;
         if (clash && !permit && !r.chance(1, risk)) { push({"redef", 1}); permit = true; }
-        push({"scan", mi}); push({"load", mi}); next++; pend.push_back(mi); for (auto &d : defs[mi]) { known.insert(d); known_fn.insert(d); }
-      } else if (c < 42) { const char *nm = pool[r.below(3)]; push({"ldext", nm, (int) r.below(8)}); known.insert(nm); }
+        push({"scan", mi}); push({"load", mi}); next++; pend.push_back(mi); for (auto &d : defs[mi]) { known.insert(d); known_fn.insert(d); } for (auto &d : ddefs[mi]) known.insert(d);
+      } else if (c < 42) { static const char *all[] = {"f", "g", "h", "d1", "d2"}; const char *nm = all[r.below(5)]; push({"ldext", nm, (int) r.below(8)}); known.insert(nm); }
       else if (c < 48) { permit = r.coin(); push({"redef", (int) permit}); }
       else if (c < 72 && !pend.empty()) {
         bool undefined = false, use_res = r.chance(1, 3); for (int mi : pend) for (auto &n : imps[mi]) if (!known.count(n) && !(use_res && rs.has(n))) undefined = true;
